@@ -226,8 +226,108 @@ def fam_lock(tier):
     return cm, out
 
 
+def fam_sql(tier):
+    cm = "pixee:python/sql-parameterization"
+    pre = (
+        "import sqlite3\n"
+        "connection = sqlite3.connect(':memory:')\ncursor = connection.cursor()\n"
+        "cursor.execute('CREATE TABLE users (name TEXT, phone TEXT)')\n"
+        "cursor.executemany('INSERT INTO users VALUES (?, ?)', [('alice', '1'), ('', ''), ('123', '123'), ('\u00fcn\u00ef', '2'), ('user_bob_system', '3'), ('bob smith', '4'), ('%s', '5')])\n"
+        "def value(v):\n    return v\n"
+    )
+    shapes = {
+        "fstring": "cursor.execute(f\"SELECT * from users WHERE name='{name}'\")",
+        "concat": "cursor.execute(\"SELECT * from users WHERE name ='\" + name + \"'\")",
+        "concat-affix": "cursor.execute(\"SELECT * from users WHERE name ='user_\" + name + \"_system'\")",
+        "concat-two": "cursor.execute('SELECT * from users WHERE name =\\'' + name + '\\' AND phone =\\'' + phone + '\\'')",
+        "percent": "cursor.execute(\"SELECT * from users WHERE name ='%s'\" % name)",
+        "percent-tuple": "cursor.execute(\"SELECT * from users WHERE name ='%s' AND phone = '%s'\" % (name, phone))",
+        "format": "cursor.execute(\"SELECT * from users WHERE name ='{}'\".format(name))",
+        "variable": "query = \"SELECT * from users WHERE name ='\" + name + \"'\"\ncursor.execute(query)",
+        "pieces": "a = \"SELECT * from users \"\nb = \"WHERE name = '\" + name\nc = \"' AND phone = '\" + phone + \"'\"\ncursor.execute(a + b + c)",
+        "like": "cursor.execute(\"SELECT * from users WHERE name LIKE '%\" + name + \"%'\")",
+        "fstring-two": "cursor.execute(f\"SELECT * from users WHERE name='{name}' OR phone='{phone}'\")",
+        "order": "cursor.execute(\"SELECT name from users WHERE name ='\" + name + \"' ORDER BY phone\")",
+        "in-function": "def q(n):\n    cursor.execute(\"SELECT * from users WHERE name ='\" + n + \"'\")\n    return cursor.fetchall()\nprint(q(name))",
+    }
+    out = []
+    for lab, stmt in shapes.items():
+        for val in ("alice", "", "123", "\u00fcn\u00ef", "bob", "bob smith", "%s", "nobody"):
+            text = pre + f"name = value({val!r})\nphone = value('1')\n{stmt}\nprint(cursor.fetchall())\n"
+            out.append((lab, text))
+    return cm, out
+
+
+def fam_imports(tier):
+    out = []
+    bodies = {
+        "used-and-unused": "import os, sys\nimport json\nprint(os.sep, json.dumps([1]))\n",
+        "from-mixed": "from os import sep, path\nfrom json import dumps, loads\nprint(sep, dumps({}))\n",
+        "alias": "import os as operating, sys as system\nprint(operating.sep)\n",
+        "dunder-all": "import os\nimport json\n__all__ = ['json']\nprint(os.sep)\n",
+        "used-in-function": "import os\nimport json\ndef f():\n    return json.dumps(1)\nprint(f())\n",
+        "used-in-annotation": "import typing\nimport os\ndef f(a: typing.Any) -> None:\n    print(a)\nf(1)\n",
+        "used-in-string-annotation": "import typing\ndef f(a: 'typing.Any'):\n    return a\nprint(f(2))\n",
+        "try-import": "try:\n    import json\nexcept ImportError:\n    json = None\nimport os\nprint(json is not None)\n",
+        "reexport-star-safe": "import os.path\nimport os\nprint(os.path.sep)\n",
+        "shadowed-later": "import json\njson = 3\nprint(json)\n",
+        "used-in-decorator": "import functools\nimport os\n@functools.lru_cache\ndef f():\n    return 1\nprint(f())\n",
+        "conditional-use": "import os\nimport sys\nif len(sys.argv) > 99:\n    print(os.sep)\nprint('x')\n",
+        "multi-line": "from os import (\n    sep,\n    path,\n    getcwd,\n)\nprint(sep)\n",
+        "semicolon": "import os; import json\nprint(json.dumps(1))\n",
+        "global-in-func": "import os\ndef f():\n    global os\n    return os.sep\nprint(f())\n",
+    }
+    return "pixee:python/unused-imports", [(k, v) for k, v in bodies.items()]
+
+
+def fam_order_imports(tier):
+    bodies = {
+        "unsorted": "import sys\nimport os\nimport json\nprint(os.sep, json.dumps(1), sys.maxsize > 0)\n",
+        "from-and-import": "from os import sep\nimport sys\nfrom json import dumps\nimport abc\nprint(sep, dumps(1), bool(sys.path), abc.ABC.__name__)\n",
+        "with-comments": "# lead\nimport sys  # s\n# mid\nimport os  # o\nprint(os.sep, sys.maxsize > 0)\n",
+        "future-first": "from __future__ import annotations\nimport sys\nimport os\nprint(os.sep)\n",
+        "docstring": '"""doc"""\nimport sys\nimport os\nprint(__doc__, os.sep)\n',
+        "aliases": "import sys as s\nimport os as o\nprint(o.sep, s.maxsize > 0)\n",
+        "duplicate": "import os\nimport os\nimport sys\nprint(os.sep)\n",
+        "try-block": "import sys\ntry:\n    import zzz_nope\nexcept ImportError:\n    zzz_nope = None\nimport os\nprint(os.sep, zzz_nope)\n",
+        "code-between": "import sys\nx = sys.maxsize > 0\nimport os\nprint(x, os.sep)\n",
+    }
+    return "pixee:python/order-imports", [(k, v) for k, v in bodies.items()]
+
+
+def fam_future(tier):
+    bodies = {
+        "print-function": "from __future__ import print_function\nprint('a', 'b', sep='-')\n",
+        "annotations-kept": "from __future__ import annotations\ndef f(a: Undefined) -> None:\n    return 1\nprint(f(1))\n",
+        "mixed": "from __future__ import annotations, division, unicode_literals\ndef f(a: Undefined):\n    return 3 / 2\nprint(f(1), type('s').__name__)\n",
+        "absolute": "from __future__ import absolute_import, with_statement\nprint('x')\n",
+        "after-docstring": '"""d"""\nfrom __future__ import generators\nprint(__doc__)\n',
+    }
+    return "pixee:python/remove-future-imports", [(k, v) for k, v in bodies.items()]
+
+
+def fam_abstractproperty(tier):
+    pre = "import abc\n"
+    bodies = {
+        "basic": "class A(abc.ABC):\n    @abc.abstractproperty\n    def p(self):\n        pass\ntry:\n    A()\nexcept TypeError as e:\n    print('abstract')\nclass B(A):\n    p = 3\nprint(B().p)\n",
+        "from-import": "from abc import ABC, abstractproperty\nclass A(ABC):\n    @abstractproperty\n    def p(self):\n        return 1\nclass B(A):\n    @property\n    def p(self):\n        return 2\nprint(B().p, isinstance(A.__dict__['p'], property))\n",
+        "classmethod-variant": "class A(abc.ABC):\n    @abc.abstractclassmethod\n    def c(cls):\n        pass\n    @abc.abstractstaticmethod\n    def s():\n        pass\nclass B(A):\n    @classmethod\n    def c(cls):\n        return 'c'\n    @staticmethod\n    def s():\n        return 's'\nprint(B.c(), B.s())\ntry:\n    A()\nexcept TypeError:\n    print('abstract')\n",
+        "abstractmethods-set": "class A(abc.ABC):\n    @abc.abstractproperty\n    def p(self):\n        pass\nprint(sorted(A.__abstractmethods__))\n",
+    }
+    return "pixee:python/fix-deprecated-abstractproperty", [(k, (pre if not v.startswith("from abc") else "") + v) for k, v in bodies.items()]
+
+
+def fam_module_global(tier):
+    bodies = {
+        "assign-after": "global x\nx = 1\nprint(x)\n",
+        "in-function-too": "global y\ny = 2\ndef f():\n    global y\n    y += 1\n    return y\nprint(f(), y)\n",
+        "several": "global a, b\na = b = 0\nprint(a, b)\n",
+    }
+    return "pixee:python/remove-module-global", [(k, v) for k, v in bodies.items()]
+
+
 FAMILIES = [fam_combine_startswith, fam_combine_isinstance, fam_invert_boolean, fam_use_generator, fam_use_set_literal, fam_walrus, fam_fstr,
-            fam_lazy_logging, fam_logging_warn, fam_hasattr, fam_file_leak, fam_lock]
+            fam_lazy_logging, fam_logging_warn, fam_hasattr, fam_file_leak, fam_lock, fam_sql, fam_imports, fam_order_imports, fam_future, fam_abstractproperty, fam_module_global]
 
 
 # --------------------------------------------------------------------------- execution
@@ -346,7 +446,8 @@ def explore(tier, seed):
     assumptions = [
         "equivalence is decided only for the generated families (operand kinds, and/or/not nesting, parenthesisation, tuple vs scalar arguments, chained comparisons, edge values); it says nothing about programs outside them",
         "observation = captured stdout and the type of a raised exception; programs run in a fresh namespace with a 3 s alarm",
-        "unused-imports, order-imports, remove-future-imports, abstractproperty, remove-module-global and sql-parameterization families are not generated yet (listed in DESIGN.md as remaining work)",
+        "import families observe values computed with the imported names, not side effects of importing a module (removing an unused import legitimately removes those)",
+        "SQL members use benign parameter values only (no quote characters), as the property states",
     ]
     return "exploration", coverage, violations, assumptions
 
